@@ -18,8 +18,8 @@ def check(ctx):
         args = ['--bound', str(bound), '--jobs', str(min(vlib.NJOBS, 6 if ctx.tier == 'quick' else 12)), '--outdir', vlib.OUT, '--deadline', str(deadline)]
         ctx.run_engine(exe, args, label='future-%s-b%d' % (sets, bound), timeout=deadline + 600, env=env)
     if ctx.tier == 'quick':
-        leg('s', 2, 40)
-        leg('q', 1, 35)
+        leg('s', 2, 30)
+        leg('q', 1, 30)
     else:
         leg('s', 4, 150)
         leg('q', 2, 300)
